@@ -435,8 +435,11 @@ def ensemble_cases(draw):
 @st.composite
 def pipeline_cases(draw, boxcox=True):
     ts = draw(pools.transformer_chains(3, allow_boxcox=boxcox))
-    if draw(st.integers(0, 5)) == 0:
-        ts = [{"kind": "imputer", "method": "mean"}] + ts
+    if draw(st.integers(0, 3)) == 0:
+        # a cleaning step whose inverse is skipped, at ANY position of the chain: the
+        # invertible steps on either side of it must still be inverted
+        pos = draw(st.integers(0, len(ts)))
+        ts = ts[:pos] + [{"kind": "imputer", "method": "mean"}] + ts[pos:]
     inner = draw(st.one_of(pools.plain_specs(), pools.plain_specs(),
                            st.builds(lambda ms: {"kind": "ensemble", "members": ms, "aggfunc": "mean"},
                                      st.lists(pools.plain_specs(), min_size=1, max_size=2))))
